@@ -53,7 +53,15 @@ Fixpoint cks_ok (cks : list N) (shards : list (list (list N) * N * bool)) : bool
 Definition load_dir (ver : N) (d : dirimg) (optional : bool) : lres :=
   match d_files d with
   | PBad => LErr
-  | PMissing => if optional then LOk [] else LErr
+  | PMissing =>
+    if optional then
+      (* no files.json: no such part; a checksum list must then be absent or empty *)
+      match d_cks d with
+      | PBad => LErr
+      | POk cks => match cks with [] => LOk [] | _ => LErr end
+      | PMissing => LOk []
+      end
+    else LErr
   | POk names =>
     match d_cks d with
     | PBad => LErr
